@@ -123,8 +123,16 @@ An incremental solver offers `add_assertion`, `push`, `pop`, `reset_assertions`,
 one-shot queries `is_sat f`, `is_valid f`, `is_unsat f`, `solve([f])`.  Property C16 says that a
 one-shot query leaves the assertions as it found them: as a stack command it is a `check`. -/
 
+
 inductive Query where
   | isSat | isValid | isUnsat | assuming
+  deriving Repr, DecidableEq, Inhabited
+
+/-- A query may also end with an exception that the client catches and survives (the native solver answers
+    "unknown", or the formula cannot be converted): which native call of the query raises. -/
+inductive Fail where
+  | add      -- asserting the query's formula raises
+  | solve    -- the check raises (unknown result)
   deriving Repr, DecidableEq, Inhabited
 
 inductive Op where
@@ -135,6 +143,8 @@ inductive Op where
   | solve
   | oneshot (q : Query) (f : Nat)
   | read           -- reading the solver's assertion list
+  | solveFails     -- `solve()` that raises
+  | oneshotFails (q : Query) (fail : Fail) (f : Nat)   -- one-shot query that raises
   deriving Repr, DecidableEq, Inhabited
 
 def Op.cmd : Op → Cmd
@@ -145,6 +155,14 @@ def Op.cmd : Op → Cmd
   | .solve => .check
   | .oneshot _ _ => .check
   | .read => .other
+  | .solveFails => .check
+  | .oneshotFails _ _ _ => .check      -- also a query that raises leaves the assertions as it found them
+
+/-- the calls property C16 calls one-shot queries -/
+def Op.isOneshot : Op → Bool
+  | .oneshot _ _ => true
+  | .oneshotFails _ _ _ => true
+  | _ => false
 
 def runOps (ops : List Op) : Option Stack := run (ops.map Op.cmd)
 
